@@ -54,6 +54,7 @@ LeafCatalogue ==
    ptA |-> <<"pt", ArrA>>, ptI |-> <<"pt", <<"int">>>>, ptptA |-> <<"pt", <<"pt", ArrA>>>>,
    arrQ |-> ArrQ, arrQV |-> ArrQV, uQ |-> <<"union", ArrQ, <<"int">>>>, tupQ |-> <<"tupA", ArrQ>>,
    ptQ |-> <<"pt", ArrQ>>, arrAny |-> ArrAny, arrBQV |-> ArrBQV,
+   uisP |-> <<"union|", <<"int">>, <<"str">>>>, uAiP |-> <<"union|", ArrA, <<"int">>>>, uAshVP |-> <<"union|", ArrA, ArrV>>,
    arrAnyA |-> ArrAnyA, arrAnyV |-> ArrAnyV, ptAnyA |-> <<"pt", ArrAnyA>>, uAnyAi |-> <<"union", ArrAnyA, <<"int">>>>,
    ptSQ |-> <<"ptS", ArrQ, SName0("U")>>, ptSA |-> <<"ptS", ArrA, SName0("U")>>,
    arrQa |-> <<"arr", <<T1(<<"?">>, "ident", "a"), T1(<< >>, "ident", "a")>>, "f">>,
